@@ -65,6 +65,8 @@ func (e *Encoder) mapUpdate(in *ssa.MapUpdate, st *State, pc string) {
 	m := e.val(in.Map)
 	mt := in.Map.Type().Underlying().(*types.Map)
 	e.panicObl("nilmap", "assignment to entry in nil map", pc, not(fmt.Sprintf("(= %s map_nil)", m.S)))
+	// (execution continues past the assignment only if the map is not nil)
+	c.assume(implies(pc, not(fmt.Sprintf("(= %s map_nil)", m.S))))
 	env := e.envFor(st)
 	dk, ds, vk, vs := env.mapKeys(mt)
 	k, v := e.val(in.Key), e.val(in.Value)
